@@ -284,7 +284,8 @@ def check_esn(ctx):
     Y = np.array(flow.seq_rows(g, 6, 1), dtype=float)
 
     def build(feedback=False):
-        e = ESN(units=5, seed=3, ridge=0.5, feedback=feedback)
+        kw = {"fb_connectivity": 1.0, "fb_scaling": 2.0} if feedback else {}      # (a feedback matrix that is not all zeros)
+        e = ESN(units=5, seed=3, ridge=0.5, feedback=feedback, **kw)
         e.fit(X, Y)
         return e
     c = {"kind": "esn_witness"}
